@@ -20,6 +20,8 @@ def companions():
     res = {
         "LocalStoreFSMC.tla": {"FsConf.tla": fsconf.module("crash_first_keep", "atomic")},
         "FsTrace.tla": {},
+        "StoreCodec.tla": {"CodecConf.tla": codecconf()},
+        "StoreDbfs.tla": {"DbfsConf.tla": dbfsconf()},
         "StoreViews.tla": {"ViewsConf.tla": viewsconf()},
         "DdsValues.tla": {"ValuesConf.tla": valuesconf.module("values", 1)},
         "ValuesTrace.tla": {"ValuesConf.tla": valuesconf.module("values", 1)},
@@ -38,6 +40,16 @@ def companions():
 def viewsconf() -> str:
     from . import viewprops
     return viewprops.conf(3, False)
+
+
+def codecconf() -> str:
+    from . import codecprops
+    return codecprops.conf(3, False)
+
+
+def dbfsconf() -> str:
+    from . import dbfsprops
+    return dbfsprops.conf("full", 3, False)
 
 
 def fsconf_mod() -> str:
